@@ -20,6 +20,7 @@ import (
 	"os"
 	"path"
 	"path/filepath"
+	"regexp"
 	"sort"
 	"strings"
 	"sync"
@@ -39,7 +40,11 @@ type scenario struct {
 	Edit   string   `json:"edit"`
 	To     string   `json:"to"`
 	PP     bool     `json:"pp"`
-	Names  string   `json:"names"`
+	Fam    string   `json:"fam"`
+	HE     bool     `json:"he"`
+	HC     bool     `json:"hc"`
+	HA     bool     `json:"ha"`
+	TStyle string   `json:"tstyle"`
 	SM     string   `json:"sm"`
 	SC     bool     `json:"sc"`
 	SRoot  bool     `json:"sroot"`
@@ -54,7 +59,13 @@ func (s scenario) id() string {
 	if s.To != "" && s.To != "-" {
 		to = ">" + s.To
 	}
-	return fmt.Sprintf("%s/%s/%s%s/pp%v/%s/%s/sc%v/sr%v/%s/m%v", s.Shape, s.Target, s.Edit, to, s.PP, s.Names, s.SM, s.SC, s.SRoot, s.Legal, s.Minify)
+	b := func(x bool) string {
+		if x {
+			return "1"
+		}
+		return "0"
+	}
+	return fmt.Sprintf("%s/%s/%s%s/pp%v/h%s%s%s-%s/%s/sc%v/sr%v/%s/m%v", s.Shape, s.Target, s.Edit, to, s.PP, b(s.HE), b(s.HC), b(s.HA), s.TStyle, s.SM, s.SC, s.SRoot, s.Legal, s.Minify)
 }
 
 // one emitted file as HashState.tla sees it
@@ -63,6 +74,8 @@ type fileRec struct {
 	Dig     string   `json:"dig"`
 	Role    string   `json:"role"`
 	Hashed  bool     `json:"hashed"`
+	Tpl     string   `json:"tpl"` // the name template that names the file: entry, chunk, asset
+	HP      string   `json:"hp"`  // the hash part of the path (located by the template): none, ok (8 base32 characters), empty, bad:<text>
 	Kind    string   `json:"kind"`
 	Parent  string   `json:"parent"`
 	Refs    []string `json:"refs"`
@@ -125,6 +138,34 @@ type world struct {
 	files   map[string]string
 	entries []string
 	loaders map[string]api.Loader
+	virt    map[string]string // modules provided by a plug-in in the namespace "virt"
+	outfile string            // an outfile build (no splitting, no outdir)
+}
+
+// in the template style "dir" the entry point a lives in a nested directory (src/pages), so that [dir] is not empty for it
+func relocate(w *world) {
+	for _, name := range []string{"src/a.js", "src/a.css"} {
+		isEntry := false
+		for i, e := range w.entries {
+			if e == name {
+				isEntry = true
+				w.entries[i] = "src/pages/" + path.Base(name)
+			}
+		}
+		if !isEntry {
+			continue
+		}
+		txt := w.files[name]
+		delete(w.files, name)
+		txt = strings.ReplaceAll(txt, "'./", "'../")
+		txt = strings.ReplaceAll(txt, "url(./", "url(../")
+		w.files["src/pages/"+path.Base(name)] = txt
+		for k, v := range w.files {
+			if k != "src/pages/"+path.Base(name) {
+				w.files[k] = strings.ReplaceAll(v, "'./"+path.Base(name)+"'", "'./pages/"+path.Base(name)+"'")
+			}
+		}
+	}
 }
 
 // materialise returns the input tree of a scenario; edited = after the edit
@@ -160,22 +201,53 @@ func materialise(s scenario, edited bool) world {
 	if edited && s.Edit == "asset" {
 		asset = "ASSET-BYTES-v2\x00\x01"
 	}
-	w := world{files: map[string]string{}, loaders: map[string]api.Loader{".bin": api.LoaderFile, ".png": api.LoaderFile}}
+	asset2 := "ASSET2-BYTES-v1\x00\x02"
+	if edited && s.Edit == "asset2" {
+		asset2 = "ASSET2-BYTES-v2\x00\x02"
+	}
+	w := world{files: map[string]string{}, loaders: map[string]api.Loader{".bin": api.LoaderFile, ".png": api.LoaderFile, ".dat": api.LoaderCopy}}
 	extra := ""
 	if edited && s.Edit == "importadd" {
 		extra = "export const lazyb = () => import('./b.js')\n"
 	}
 	switch s.Shape {
-	case "split", "splitasset":
+	case "split", "splitasset", "mixed":
 		w.files["src/a.js"] = jsModule("a", vOf("a"), "import {s} from './shared.js'\n"+extra+"console.log(s)\n")
 		w.files["src/b.js"] = jsModule("b", vOf("b"), "import {s} from './shared.js'\nconsole.log(s, 'b')\n")
-		if s.Shape == "splitasset" {
+		if s.Shape == "splitasset" || s.Shape == "mixed" {
 			w.files["src/shared.js"] = jsModule("shared", vOf("shared"), "import x from './x.bin'\nexport const s = 'shared:' + x\n")
 			w.files["src/x.bin"] = asset
 		} else {
 			w.files["src/shared.js"] = jsModule("shared", vOf("shared"), "export const s = 'shared'\n")
 		}
 		w.entries = []string{"src/a.js", "src/b.js"}
+		if s.Shape == "mixed" {
+			// a copied entry point next to the chunks and the file-loader asset: all three templates name outputs of one build
+			w.files["src/static/d.dat"] = asset2
+			w.entries = append(w.entries, "src/static/d.dat")
+		}
+	case "copyonly":
+		w.files["src/a.js"] = jsModule("a", vOf("a"), "console.log('solo')\n")
+		w.files["src/static/d.dat"] = asset2
+		w.entries = []string{"src/a.js", "src/static/d.dat"}
+	case "outfilecopy":
+		w.files["src/static/d.dat"] = asset2
+		w.entries = []string{"src/static/d.dat"}
+		w.outfile = "out/copied.dat"
+	case "twoassets":
+		w.files["src/a.js"] = jsModule("a", vOf("a"), "import x from './x.bin'\nimport y from './y.bin'\nconsole.log(x, y)\n")
+		w.files["src/x.bin"] = asset
+		w.files["src/y.bin"] = asset2
+		w.entries = []string{"src/a.js"}
+	case "outfile":
+		w.files["src/a.js"] = jsModule("a", vOf("a"), "import x from './x.bin'\nconsole.log(x)\n")
+		w.files["src/x.bin"] = asset
+		w.entries = []string{"src/a.js"}
+		w.outfile = "out/bundle.js"
+	case "plugin":
+		w.files["src/a.js"] = jsModule("a", vOf("a"), "import {v} from 'virtual:v.js'\nimport x from 'virtual:x.bin'\nconsole.log(v, x)\n")
+		w.virt = map[string]string{"v.js": jsModule("v", vOf("v"), "export const v = 'virtual'\n"), "x.bin": asset}
+		w.entries = []string{"src/a.js"}
 	case "statchain":
 		// shared.js is in the chunk of {a, b}, m2.js in the chunk of {a, b, c}: chunk -> chunk -> chunk
 		w.files["src/a.js"] = jsModule("a", vOf("a"), "import {s} from './shared.js'\n"+extra+"console.log(s)\n")
@@ -223,7 +295,47 @@ func materialise(s scenario, edited bool) world {
 		w.files["src/x.png"] = asset
 		w.entries = []string{"src/a.js"}
 	}
+	if s.TStyle == "dir" {
+		relocate(&w)
+	}
 	return w
+}
+
+// the three name templates of a scenario: [hash] in each of them independently, four styles
+func templates(s scenario) (entry, chunk, asset string) {
+	pick := func(hashed bool, with, without string) string {
+		if hashed {
+			return with
+		}
+		return without
+	}
+	switch s.TStyle {
+	case "dir":
+		return pick(s.HE, "[dir]/[name]-[hash]", "[dir]/[name]"), pick(s.HC, "[dir]/chunks/[name]-[hash]", "[dir]/chunks/[name]"), pick(s.HA, "[dir]/media/[name]-[hash]", "[dir]/media/[name]")
+	case "ext":
+		return pick(s.HE, "[ext]/[hash]-[name]", "[ext]/[name]"), pick(s.HC, "c-[ext]/[hash]-[name]", "c-[ext]/[name]"), pick(s.HA, "assets/[ext]/[hash]-[name]", "assets/[ext]/[name]")
+	}
+	return pick(s.HE, "[name]-[hash]", "[name]"), pick(s.HC, "chunks/[name]-[hash]", "chunks/[name]"), pick(s.HA, "assets/[name]-[hash]", "assets/[name]")
+}
+
+// the plug-in of the shape "plugin": modules and an asset in a non-file namespace
+func virtPlugin(virt map[string]string) api.Plugin {
+	return api.Plugin{Name: "virt", Setup: func(b api.PluginBuild) {
+		b.OnResolve(api.OnResolveOptions{Filter: "^virtual:"}, func(a api.OnResolveArgs) (api.OnResolveResult, error) {
+			return api.OnResolveResult{Path: strings.TrimPrefix(a.Path, "virtual:"), Namespace: "virt"}, nil
+		})
+		b.OnLoad(api.OnLoadOptions{Filter: ".*", Namespace: "virt"}, func(a api.OnLoadArgs) (api.OnLoadResult, error) {
+			c, ok := virt[a.Path]
+			if !ok {
+				return api.OnLoadResult{}, fmt.Errorf("no virtual module %q", a.Path)
+			}
+			l := api.LoaderJS
+			if strings.HasSuffix(a.Path, ".bin") {
+				l = api.LoaderFile
+			}
+			return api.OnLoadResult{Contents: &c, Loader: l}, nil
+		})
+	}}
 }
 
 const (
@@ -242,9 +354,6 @@ func options(s scenario, edited bool, root string, w world) api.BuildOptions {
 		Bundle:        true,
 		Splitting:     true,
 		Format:        api.FormatESModule,
-		EntryNames:    "[name]-[hash]",
-		ChunkNames:    "chunks/[name]-[hash]",
-		AssetNames:    "assets/[name]-[hash]",
 		Loader:        w.loaders,
 		Define:        map[string]string{"FLAG_X": "1"},
 		Write:         false,
@@ -252,19 +361,24 @@ func options(s scenario, edited bool, root string, w world) api.BuildOptions {
 		LogLevel:      api.LogLevelSilent,
 	}
 	is := func(e string) bool { return edited && s.Edit == e }
-	if s.Names == "entryplain" {
-		o.EntryNames = "[name]"
+	o.EntryNames, o.ChunkNames, o.AssetNames = templates(s)
+	if w.outfile != "" {
+		// outfile build: no outdir, no splitting; the entry template is applied to the base name of the outfile
+		o.Outdir, o.Outbase, o.Splitting, o.Outfile = "", "", false, w.outfile
+	}
+	if w.virt != nil {
+		o.Plugins = []api.Plugin{virtPlugin(w.virt)}
 	}
 	if is("entrynames") {
 		o.EntryNames = "e/" + o.EntryNames
 	}
 	if is("chunknames") {
-		o.ChunkNames = "c2/[name]-[hash]"
+		o.ChunkNames = "c2/" + o.ChunkNames
 	}
 	if is("assetnames") {
-		o.AssetNames = "media/[name]-[hash]"
+		o.AssetNames = "m2/" + o.AssetNames
 	}
-	if is("outext") {
+	if is("outext") || s.TStyle == "outext" {
 		o.OutExtension = map[string]string{".js": ".mjs", ".css": ".pcss"}
 	}
 	if s.PP {
@@ -351,6 +465,18 @@ func options(s scenario, edited bool, root string, w world) api.BuildOptions {
 	return o
 }
 
+// the inputs of a scenario for the replay file (plug-in modules under virt:)
+func inputsOf(w world) map[string]string {
+	m := map[string]string{}
+	for k, v := range w.files {
+		m[k] = v
+	}
+	for k, v := range w.virt {
+		m["virt:"+k] = v
+	}
+	return m
+}
+
 // ---------- one real build, projected ----------
 
 type metaOut struct {
@@ -397,7 +523,9 @@ func build(s scenario, edited bool, root string) built {
 	for _, e := range w.entries {
 		isEntry[e] = true
 	}
-	entryHashed := strings.Contains(o.EntryNames, "[hash]")
+	tplText := map[string]string{"entry": o.EntryNames, "chunk": o.ChunkNames, "asset": o.AssetNames}
+	hashedBy := func(tpl string) bool { return strings.Contains(tplText[tpl], "[hash]") }
+	isCopied := func(in string) bool { return w.loaders[path.Ext(in)] == api.LoaderCopy }
 	paths := map[string]bool{}
 	for _, f := range res.OutputFiles {
 		rel, _ := filepath.Rel(root, f.Path)
@@ -410,7 +538,7 @@ func build(s scenario, edited bool, root string) built {
 			cssBundleOf[m.CSSBundle] = m.EntryPoint
 		}
 	}
-	roleOf := func(p string) (role string, hashed bool, kind string) {
+	roleOf := func(p string) (role string, tpl string, kind string) {
 		m := mf.Outputs[p]
 		if ep := cssBundleOf[p]; ep != "" && m.EntryPoint == "" {
 			m.EntryPoint = ep
@@ -423,23 +551,29 @@ func build(s scenario, edited bool, root string) built {
 		}
 		switch {
 		case m.EntryPoint != "" && isEntry[m.EntryPoint]:
-			return "entry:" + m.EntryPoint + sfx, entryHashed, kind
+			return "entry:" + m.EntryPoint + sfx, "entry", kind
 		case m.EntryPoint != "":
-			return "dyn:" + m.EntryPoint + sfx, true, kind
+			// the entry chunk of a dynamic import is named by the chunk template
+			return "dyn:" + m.EntryPoint + sfx, "chunk", kind
 		case kind != "asset":
 			ins := make([]string, 0, len(m.Inputs))
 			for k := range m.Inputs {
 				ins = append(ins, k)
 			}
 			sort.Strings(ins)
-			return "chunk:" + strings.Join(ins, "+") + sfx, true, kind
+			return "chunk:" + strings.Join(ins, "+") + sfx, "chunk", kind
 		default:
 			ins := make([]string, 0, len(m.Inputs))
 			for k := range m.Inputs {
 				ins = append(ins, k)
 			}
 			sort.Strings(ins)
-			return "asset:" + strings.Join(ins, "+"), true, kind
+			// file / copy-loader output: asset template, except a copied file that is an entry point itself
+			tpl := "asset"
+			if len(ins) == 1 && isEntry[ins[0]] && isCopied(ins[0]) {
+				tpl = "entry"
+			}
+			return "asset:" + strings.Join(ins, "+"), tpl, kind
 		}
 	}
 	for _, f := range res.OutputFiles {
@@ -448,18 +582,82 @@ func build(s scenario, edited bool, root string) built {
 		fr := fileRec{Path: p, Dig: digest(f.Contents), Refs: []string{}, text: string(f.Contents)}
 		switch {
 		case strings.HasSuffix(p, ".map") && paths[strings.TrimSuffix(p, ".map")]:
-			pr, h, _ := roleOf(strings.TrimSuffix(p, ".map"))
-			fr.Role, fr.Hashed, fr.Kind, fr.Parent = pr+".map", h, "map", pr
+			pr, tp, _ := roleOf(strings.TrimSuffix(p, ".map"))
+			fr.Role, fr.Tpl, fr.Kind, fr.Parent = pr+".map", tp, "map", pr
+			fr.HP = hashPart(tplText[tp], strings.TrimSuffix(p, ".map"))
 		case strings.HasSuffix(p, ".LEGAL.txt") && paths[strings.TrimSuffix(p, ".LEGAL.txt")]:
-			pr, h, _ := roleOf(strings.TrimSuffix(p, ".LEGAL.txt"))
-			fr.Role, fr.Hashed, fr.Kind, fr.Parent = pr+".legal", h, "legal", pr
+			pr, tp, _ := roleOf(strings.TrimSuffix(p, ".LEGAL.txt"))
+			fr.Role, fr.Tpl, fr.Kind, fr.Parent = pr+".legal", tp, "legal", pr
+			fr.HP = hashPart(tplText[tp], strings.TrimSuffix(p, ".LEGAL.txt"))
 		default:
-			fr.Role, fr.Hashed, fr.Kind = roleOf(p)
+			fr.Role, fr.Tpl, fr.Kind = roleOf(p)
+			fr.HP = hashPart(tplText[fr.Tpl], p)
 		}
+		// a file is subject to 'same path => same bytes' iff ITS OWN template contains [hash]
+		fr.Hashed = hashedBy(fr.Tpl)
 		b.files = append(b.files, fr)
 	}
 	return b
 }
+
+// hashPart locates the text substituted for [hash] in an emitted path with a
+// regular expression derived from the name template: "none" if the template
+// has no [hash], "ok" if it is 8 characters of the base32 alphabet, "empty",
+// "bad:<text>" otherwise, "nomatch" if the path does not have the shape of the
+// template at all (a projection error, never a verdict).
+var tplRegexps sync.Map
+
+func hashPart(tpl, p string) string {
+	if !strings.Contains(tpl, "[hash]") {
+		return "none"
+	}
+	var re *regexp.Regexp
+	if v, ok := tplRegexps.Load(tpl); ok {
+		re = v.(*regexp.Regexp)
+	} else {
+		var sb strings.Builder
+		sb.WriteString(`^out/`)
+		rest := tpl
+		for rest != "" {
+			switch {
+			case strings.HasPrefix(rest, "[dir]/"):
+				sb.WriteString(`(?:.+/)?`)
+				rest = rest[len("[dir]/"):]
+			case strings.HasPrefix(rest, "[dir]"):
+				sb.WriteString(`.*`)
+				rest = rest[len("[dir]"):]
+			case strings.HasPrefix(rest, "[name]"):
+				sb.WriteString(`[^/]+?`)
+				rest = rest[len("[name]"):]
+			case strings.HasPrefix(rest, "[ext]"):
+				sb.WriteString(`[A-Za-z0-9]+`)
+				rest = rest[len("[ext]"):]
+			case strings.HasPrefix(rest, "[hash]"):
+				sb.WriteString(`([^/.-]*)`)
+				rest = rest[len("[hash]"):]
+			default:
+				sb.WriteString(regexp.QuoteMeta(rest[:1]))
+				rest = rest[1:]
+			}
+		}
+		sb.WriteString(`\.[A-Za-z0-9]+$`)
+		re = regexp.MustCompile(sb.String())
+		tplRegexps.Store(tpl, re)
+	}
+	m := re.FindStringSubmatch(p)
+	if m == nil {
+		return "nomatch"
+	}
+	switch {
+	case m[1] == "":
+		return "empty"
+	case base32Hash.MatchString(m[1]):
+		return "ok"
+	}
+	return "bad:" + m[1]
+}
+
+var base32Hash = regexp.MustCompile(`^[A-Z2-7]{8}$`)
 
 // ---------- parsing the emitted text (node/imports_of.js) ----------
 
@@ -490,7 +688,7 @@ func resolveRef(b *built, from, ref string) string {
 }
 
 func isAssetURL(s string) bool {
-	return (strings.HasSuffix(s, ".bin") || strings.HasSuffix(s, ".png")) && !strings.ContainsAny(s, " \n")
+	return (strings.HasSuffix(s, ".bin") || strings.HasSuffix(s, ".png") || strings.HasSuffix(s, ".dat")) && !strings.ContainsAny(s, " \n")
 }
 
 func fillRefs(b *built, byID map[string]*parsed, idPrefix string) error {
@@ -553,6 +751,7 @@ type verdict struct {
 	Changed    []string   `json:"changed"`
 	Unresolved []pathPair `json:"unresolved"`
 	WithKeys   []string   `json:"withkeys"`
+	BadHash    []string   `json:"badhash"`
 }
 
 func kindOfPath(p string) string {
@@ -647,6 +846,8 @@ func validate(r *core.Run, recs []*record, confirmed map[string]int, mu *sync.Mu
 					witness = append(witness, kindOfPath(u.From))
 				}
 				witness = kinds(witness, func(x string) string { return x })
+			case "NoEmptyHash":
+				witness = kinds(v.BadHash, kindOfPath)
 			case "NoPlaceholderSurvives":
 				witness = kinds(v.WithKeys, kindOfPath)
 				if rc.MetaKeys > 0 {
@@ -659,9 +860,9 @@ func validate(r *core.Run, recs []*record, confirmed map[string]int, mu *sync.Mu
 				mu.Unlock()
 			}
 			r.Violation(map[string]interface{}{"invariant": inv, "edit": s.Edit, "legal": s.Legal, "witness": strings.Join(witness, "+"),
-				"shape": s.Shape, "target": s.Target, "to": s.To, "pp": s.PP, "names": s.Names, "sm": s.SM, "sc": s.SC, "sroot": s.SRoot, "minify": s.Minify},
-				fmt.Sprintf("pair of real builds violates %s (scenario %s): collisions %v, names that did not change %v, changed roles %v, unresolved %v, unique keys in %v (metafile %d); predicted by Hash.tla: %v",
-					inv, s.id(), v.Collisions, v.Stuck, v.Changed, v.Unresolved, v.WithKeys, rc.MetaKeys, predicted[inv]),
+				"shape": s.Shape, "target": s.Target, "to": s.To, "pp": s.PP, "he": s.HE, "hc": s.HC, "ha": s.HA, "tstyle": s.TStyle, "sm": s.SM, "sc": s.SC, "sroot": s.SRoot, "minify": s.Minify},
+				fmt.Sprintf("pair of real builds violates %s (scenario %s): collisions %v, names that did not change %v, changed roles %v, unresolved %v, unique keys in %v (metafile %d), names whose [hash] part is not 8 base32 characters %v; predicted by Hash.tla: %v",
+					inv, s.id(), v.Collisions, v.Stuck, v.Changed, v.Unresolved, v.WithKeys, rc.MetaKeys, v.BadHash, predicted[inv]),
 				map[string]interface{}{"scenario": s, "files_before": rc.files1, "files_after": rc.files2, "options_before": rc.opts1, "options_after": rc.opts2,
 					"record": rc, "verdict": v, "messages": rc.msgs})
 		}
@@ -710,7 +911,9 @@ func runBatch(r *core.Run, scens []scenario, base int, confirmed map[string]int,
 	var out struct {
 		Results []parsed `json:"results"`
 	}
-	if err := nodex.Run(r, "imports_of.js", map[string]interface{}{"files": reqs}, &out, 10*time.Minute, "", "--expose-internals"); err != nil {
+	if len(reqs) == 0 {
+		// only copied files were emitted: nothing to re-parse
+	} else if err := nodex.Run(r, "imports_of.js", map[string]interface{}{"files": reqs}, &out, 10*time.Minute, "", "--expose-internals"); err != nil {
 		r.Infra("re-parsing the emitted files failed: %v", err)
 		return
 	}
@@ -728,7 +931,7 @@ func runBatch(r *core.Run, scens []scenario, base int, confirmed map[string]int,
 			continue
 		}
 		rc := &record{ID: base + i, scen: s, opts1: p.b1.optsStr, opts2: p.b2.optsStr,
-			files1: materialise(s, false).files, files2: materialise(s, true).files}
+			files1: inputsOf(materialise(s, false)), files2: inputsOf(materialise(s, true))}
 		ok := true
 		for k, b := range []*built{&p.b1, &p.b2} {
 			prefix := prefixes[b.root]
@@ -745,6 +948,13 @@ func runBatch(r *core.Run, scens []scenario, base int, confirmed map[string]int,
 			}
 			for j := range b.files {
 				b.files[j].KeyHits = strings.Count(b.files[j].text, prefix)
+				if b.files[j].HP == "nomatch" {
+					r.Infra("projection error: %s (template %s of scenario %s) does not have the shape of its name template", b.files[j].Path, b.files[j].Tpl, s.id())
+					ok = false
+				}
+			}
+			if !ok {
+				break
 			}
 			rc.MetaKeys += strings.Count(b.meta, prefix)
 		}
@@ -797,7 +1007,7 @@ type candidate struct {
 
 func Run(r *core.Run) {
 	r.Assume("hash functions are idealised as injective in Hash.tla (a collision of xxhash or of the 8 base32 characters kept in the name is outside the model)")
-	r.Assume("only files whose name template contains [hash] are subject to 'same path => same bytes'; asset names always contain [hash] in the scenarios (an asset template without [hash] opts out of the property)")
+	r.Assume("a file is subject to 'same path => same bytes' and to NoEmptyHash iff ITS OWN name template (entry / chunk / asset, decided per output) contains [hash]; an asset whose template has no [hash] opts out: a change of its bytes need not change the names of the chunks that refer to it (their bytes contain only its path)")
 	r.Assume("references are recognised in the emitted text by re-parsing it (acorn / CSS tokenizer): import specifiers, import(), url(), @import, string literals ending in an asset extension, sourceMappingURL and the legal-comment link")
 	r.Assume("the unique-key prefix of each build is read through the hash.done hook; user text of the placeholder shape (foreign prefix) is present in every scenario")
 	rec.Install()
@@ -833,9 +1043,9 @@ func Run(r *core.Run) {
 	var candMu sync.Mutex
 	// necessity[ingredient] = the edit kinds that reveal (on the model) that the ingredient is left out of the hashes
 	necessity := map[string]map[string]bool{}
-	cfgs := []string{"Hash.quick.cfg", "Hash.dropq.cfg"}
+	cfgs := []string{"Hash.quick.cfg", "Hash.dropq.cfg", "Hash.tpl.cfg"}
 	if r.Thorough() {
-		cfgs = []string{"Hash.quick.cfg", "Hash.thorough.cfg", "Hash.n3.cfg", "Hash.drop.cfg"}
+		cfgs = []string{"Hash.quick.cfg", "Hash.thorough.cfg", "Hash.n3.cfg", "Hash.drop.cfg", "Hash.tpl.cfg", "Hash.tpl3.cfg"}
 	}
 	seen := map[string]bool{}
 	for _, cfg := range cfgs {
@@ -875,7 +1085,7 @@ func Run(r *core.Run) {
 	nSlices := 1
 	if r.Thorough() {
 		genCfg = "HashGen.thorough.cfg"
-		nSlices = 6
+		nSlices = 8
 	}
 	genFiles := map[string]string{}
 	{
@@ -907,11 +1117,27 @@ func Run(r *core.Run) {
 		wg.Wait()
 		return
 	}
-	sort.Slice(scens, func(i, j int) bool { return scens[i].id() < scens[j].id() })
+	sort.SliceStable(scens, func(i, j int) bool { return scens[i].id() < scens[j].id() })
+	{
+		// a scenario of the template family may also be in the slice of the general family
+		uniq := scens[:0]
+		for i, s := range scens {
+			if i == 0 || s.id() != scens[i-1].id() {
+				uniq = append(uniq, s)
+			}
+		}
+		scens = uniq
+	}
 	r.Set("scenarios_enumerated", len(scens))
 	predicted := 0
 	isolating := map[string]int{}
-	dims := map[string]map[string]int{"shape": {}, "edit": {}, "sm": {}, "legal": {}}
+	dims := map[string]map[string]int{"shape": {}, "edit": {}, "sm": {}, "legal": {}, "family": {}, "hash_in_entry_chunk_asset_template": {}, "template_style": {}, "shape_x_templates": {}}
+	bit := func(x bool) string {
+		if x {
+			return "1"
+		}
+		return "0"
+	}
 	for _, s := range scens {
 		if len(s.Expect) > 0 {
 			predicted++
@@ -919,8 +1145,8 @@ func Run(r *core.Run) {
 		// "imports" is touched whenever the edited chunk is imported by another one: it is never alone
 		var own []string
 		for _, t := range s.Touch {
-			if t == "imports" {
-				isolating["imports"]++
+			if t == "imports" || t == "owntpl" {
+				isolating[t]++
 			} else {
 				own = append(own, t)
 			}
@@ -932,6 +1158,10 @@ func Run(r *core.Run) {
 		dims["edit"][s.Edit]++
 		dims["sm"][s.SM]++
 		dims["legal"][s.Legal]++
+		dims["family"][s.Fam]++
+		dims["hash_in_entry_chunk_asset_template"][bit(s.HE)+bit(s.HC)+bit(s.HA)]++
+		dims["template_style"][s.TStyle]++
+		dims["shape_x_templates"][s.Shape+"/"+bit(s.HE)+bit(s.HC)+bit(s.HA)]++
 	}
 	r.Set("scenarios_predicted_to_fail_by_model", predicted)
 	r.Set("scenarios_isolating_one_hash_ingredient", isolating)
